@@ -215,6 +215,18 @@ func startServer(kind, dir string, env []string) (*srvProc, error) {
 		args = append(args, "-backend", "directfs", "-directfs.path", filepath.Join(dir, "data"), "-directfs.meta", filepath.Join(dir, "meta"), "-directfs.bucket", "direct-bucket", "-directfs.create")
 	}
 	cmd := exec.Command(c15Binary(), args...)
+	for _, e := range env {
+		// VERIF_STRACE_KILL=<syscalls>:<n>: the server runs under strace, which delivers SIGKILL
+		// when a thread of it enters its n-th system call of the set (before the call is made)
+		if strings.HasPrefix(e, "VERIF_STRACE_KILL=") {
+			spec := strings.TrimPrefix(e, "VERIF_STRACE_KILL=")
+			i := strings.LastIndex(spec, ":")
+			set, n := spec[:i], spec[i+1:]
+			sargs := append([]string{"-f", "-qq", "-o", "/dev/null", "-e", "trace=" + set, "-e", "inject=" + set + ":signal=SIGKILL:when=" + n, c15Binary()}, args...)
+			cmd = exec.Command("strace", sargs...)
+			cmd.SysProcAttr = &syscall.SysProcAttr{Setpgid: true}
+		}
+	}
 	cmd.Env = append(os.Environ(), env...)
 	pr, pw := io.Pipe()
 	p := &srvProc{cmd: cmd, stderr: &bytes.Buffer{}, exited: make(chan struct{})}
@@ -263,8 +275,27 @@ func (p *srvProc) log() string {
 }
 
 func (p *srvProc) kill() {
+	if p.cmd.SysProcAttr != nil && p.cmd.SysProcAttr.Setpgid {
+		// strace and the server it traces
+		syscall.Kill(-p.cmd.Process.Pid, syscall.SIGKILL)
+	}
 	p.cmd.Process.Signal(syscall.SIGKILL)
 	<-p.exited
+}
+
+// straceWorks: can this sandbox trace a child? (probed once)
+var straceOnce sync.Once
+var straceOK bool
+
+func straceWorks() bool {
+	straceOnce.Do(func() {
+		if _, err := exec.LookPath("strace"); err != nil {
+			return
+		}
+		out, err := exec.Command("strace", "-f", "-qq", "-o", "/dev/null", "-e", "trace=unlinkat", "/bin/true").CombinedOutput()
+		straceOK = err == nil && len(out) == 0
+	})
+	return straceOK
 }
 
 func (p *srvProc) alive() bool {
@@ -331,7 +362,7 @@ func (o objState) String() string {
 
 type crashCase struct {
 	kind   string // bolt | fs | directfs
-	mode   string // hook | external | mid-body
+	mode   string // hook | external | mid-body | syscall
 	point  string
 	nth    int
 	killAt int // external: kill after this many acknowledged ops
@@ -344,6 +375,8 @@ func (c crashCase) String() string {
 		return fmt.Sprintf("%s kill at hook %s #%d", c.kind, c.point, c.nth)
 	case "mid-body":
 		return fmt.Sprintf("%s kill while half of an upload body is sent (after %d acks)", c.kind, c.killAt)
+	case "syscall":
+		return fmt.Sprintf("%s kill on entering system call #%d of {%s} of a thread", c.kind, c.nth, c.point)
 	}
 	return fmt.Sprintf("%s kill -9 after %d acknowledged operations", c.kind, c.killAt)
 }
@@ -396,6 +429,9 @@ func runCrashCase(r *rep.Reporter, cc crashCase) {
 	if cc.mode == "hook" {
 		env = append(env, fmt.Sprintf("VERIF_CRASH=%s:%d", cc.point, cc.nth))
 	}
+	if cc.mode == "syscall" {
+		env = append(env, fmt.Sprintf("VERIF_STRACE_KILL=%s:%d", cc.point, cc.nth))
+	}
 	r.Eval(1)
 	r.Distinct(cc.String())
 	trig := cc.mode + "," + cc.point
@@ -419,7 +455,12 @@ func runCrashCase(r *rep.Reporter, cc crashCase) {
 	p0.kill()
 	// phase 1: the workload, with the kill
 	p1, err := startServer(cc.kind, dir, env)
-	if err != nil {
+	startupKill := false
+	if err != nil && cc.mode == "syscall" && strings.Contains(err.Error(), "exited during start") {
+		// the n-th call of the set was made while the server was opening the store: a kill during start-up
+		startupKill = true
+		r.Count("kills_during_startup", 1)
+	} else if err != nil {
 		fail("restart-failed", "server does not start on the prepared store: "+err.Error(), nil)
 		return
 	}
@@ -430,7 +471,7 @@ func runCrashCase(r *rep.Reporter, cc crashCase) {
 	var inflightNew objState
 	var trace []string
 	ackCount := 0
-	killed := false
+	killed := startupKill
 	for step := 0; step < 60 && !killed; step++ {
 		k := keys[rng.Intn(len(keys))]
 		isDelete := rng.Intn(5) == 0 && acked[k].present
@@ -473,7 +514,7 @@ func runCrashCase(r *rep.Reporter, cc crashCase) {
 		}
 		if derr != nil || resp == nil {
 			// the connection broke: the server died (crash hook) while this operation was in flight
-			if p1.alive() {
+			for w := 0; p1.alive() && (w < 1 || (cc.mode == "syscall" && w < 50)); w++ {
 				time.Sleep(200 * time.Millisecond)
 			}
 			if p1.alive() {
@@ -482,7 +523,12 @@ func runCrashCase(r *rep.Reporter, cc crashCase) {
 				return
 			}
 			killed = true
-			r.Count("kills_at_hook", 1)
+			if cc.mode == "syscall" {
+				r.Count("kills_at_syscall", 1)
+				r.Count("syscall_kill:"+cc.kind+":"+cc.point, 1)
+			} else {
+				r.Count("kills_at_hook", 1)
+			}
 			break
 		}
 		wantStatus := 200
@@ -508,6 +554,10 @@ func runCrashCase(r *rep.Reporter, cc crashCase) {
 		p1.kill()
 		if cc.mode == "hook" {
 			r.Count("hook_not_reached", 1)
+			return
+		}
+		if cc.mode == "syscall" {
+			r.Count("syscall_count_not_reached", 1)
 			return
 		}
 	}
@@ -773,7 +823,7 @@ func max(a, b int) int {
 
 func runC15(c *Ctx) {
 	r := c.R
-	r.SetRule("(1) clean reopen: random C02-style histories with metadata on bolt, fs-dir and single-dir, closed and reopened at random points and at the end, full snapshot (buckets, listings, bodies, sizes, ETags, metadata headers, GET and HEAD) compared across the reopen and the history continued against S3Model; (2) kill: the real cmd/gofakes3 binary (built from /repo with -tags verif) on bolt, fs and directfs storage, a TCP client streams puts/overwrites/deletes over 5 keys, and the process is SIGKILLed (a) at the n-th hit of every crash hook on the put/delete path, (b) from outside after a PRNG-chosen number of acknowledged operations, (c) while half of an upload body has been sent; after restart ListBuckets and listings must work, every acknowledged write must be intact (body, ETag, size, listing entry, metadata) and the in-flight write wholly old or wholly new; then every key is overwritten through the recovered server with a tiny object and short metadata, which must be readable at once and after one more kill; distinct = distinct (backend, crash point, n) / kill positions / reopen histories")
+	r.SetRule("(1) clean reopen: random C02-style histories with metadata on bolt, fs-dir and single-dir, closed and reopened at random points and at the end, full snapshot (buckets, listings, bodies, sizes, ETags, metadata headers, GET and HEAD) compared across the reopen and the history continued against S3Model; (2) kill: the real cmd/gofakes3 binary (built from /repo with -tags verif) on bolt, fs and directfs storage, a TCP client streams puts/overwrites/deletes over 5 keys, and the process is SIGKILLed (a) at the n-th hit of every crash hook on the put/delete path, (b) from outside after a PRNG-chosen number of acknowledged operations, (c) while half of an upload body has been sent, (d) under strace, on a thread entering its n-th rename / unlink / mkdir / write (file backends) or pwrite / fdatasync (bolt) system call, start-up of the server included: the windows between two file-system steps that carry no hook; after restart ListBuckets and listings must work, every acknowledged write must be intact (body, ETag, size, listing entry, metadata) and the in-flight write wholly old or wholly new; then every key is overwritten through the recovered server with a tiny object and short metadata, which must be readable at once and after one more kill; distinct = distinct (backend, crash point, n) / kill positions / reopen histories")
 	if c.Only == "" {
 		c15Reopen(r)
 	}
@@ -811,6 +861,34 @@ func runC15(c *Ctx) {
 			cases = append(cases, crashCase{kind: kind, mode: "mid-body", point: "mid-body", killAt: (i * 5) % 25, seed: i})
 		}
 	}
+	// (d) kills at system-call granularity: strace delivers SIGKILL when a thread of the server enters
+	// its n-th call of a set (rename / unlink+rmdir / mkdir / write for the file backends, the data
+	// and sync calls for bolt): the windows between two file-system steps that no hook names
+	if straceWorks() {
+		sets := map[string][]string{
+			"fs":       {"rename,renameat,renameat2", "unlink,unlinkat,rmdir", "mkdir,mkdirat", "write,pwrite64", "rename,renameat,renameat2,unlink,unlinkat,rmdir,mkdir,mkdirat"},
+			"directfs": {"rename,renameat,renameat2", "unlink,unlinkat,rmdir", "mkdir,mkdirat", "write,pwrite64", "rename,renameat,renameat2,unlink,unlinkat,rmdir,mkdir,mkdirat"},
+			"bolt":     {"pwrite64,write", "fdatasync,fsync", "pwrite64,fdatasync,fsync,ftruncate,fallocate"},
+		}
+		ns := []int{1, 2, 3, 4, 5, 6, 8, 10, 13, 17}
+		if r.Thorough() {
+			ns = nil
+			for n := 1; n <= 60; n++ {
+				ns = append(ns, n)
+			}
+		}
+		for kind, ss := range sets {
+			for _, set := range ss {
+				for _, n := range ns {
+					for sd := 0; sd < r.Pick(1, 3); sd++ {
+						cases = append(cases, crashCase{kind: kind, mode: "syscall", point: set, nth: n, seed: sd})
+					}
+				}
+			}
+		}
+	} else {
+		r.Assume("strace cannot trace a child process here: the kills at system-call granularity were skipped")
+	}
 	if c.Only != "" {
 		var sel []crashCase
 		for _, cc := range cases {
@@ -836,6 +914,9 @@ func runC15(c *Ctx) {
 	r.Set("crash_points_hit", hit)
 	r.Require("reopens", 100)
 	r.Require("crash_cases_with_kill", 50)
+	if straceWorks() && c.Only == "" {
+		r.Require("kills_at_syscall", 20)
+	}
 	r.Require("in_flight_keys_audited", 30)
 	r.Require("acknowledged_keys_audited", 200)
 	r.Require("writes_after_recovery_audited", 200)
